@@ -7,7 +7,7 @@ VAL = {"err": False, "accepted": True, "vres": "", "force": False, "limit": 0, "
 
 
 def stim(kind, c, **kw):
-    s = {"kind": kind, "c": c, "from": "B", "to": "B", "msg": dict(NOMSG), "val": dict(VAL), "sendFail": [], "openFail": False, "args": dict(Z), "rereg": True}
+    s = {"kind": kind, "c": c, "from": "B", "to": "B", "msg": dict(NOMSG), "val": dict(VAL), "sendFail": [], "openFail": False, "args": dict(Z), "rereg": True, "tidOf": ""}
     for k, v in kw.items():
         if k == "msg":
             s["msg"].update(v)
@@ -33,16 +33,21 @@ def gen(ctx, n):
                       val={"err": False, "accepted": True, "vres": rng.choice(["", "r1"]), "force": False, "limit": rng.choice([0, 5]), "reqFin": rng.random() < 0.3})]
         if rng.random() < 0.5:
             steps.append(stim("OpenPullSub", "c4"))
+        # in half of the cases the counterparty opens a channel towards us that RE-USES the transfer id of the transfer we opened (c1): a different
+        # channel (other initiator), whose events are not c1's and whose end must not end c1's per-transfer subscription
+        twin = rng.random() < 0.5
+        if twin:
+            steps.append(stim("RecvRequest", "c5", tidOf="c1", msg={"isReq": True, "kind": "New", "tid": 0, "pull": rng.random() < 0.5, "v": "v0", "base": "base", "sel": "s"}))
         L = rng.randint(8, 22)
         idx = {"c1": 0, "c2": 0, "c3": 0, "c4": 0}
         for _ in range(L):
-            c = rng.choice(["c1", "c1", "c2", "c2", "c3"] + (["c4"] if any(s["c"] == "c4" for s in steps) else []))
+            c = rng.choice(["c1", "c1", "c2", "c2", "c3"] + (["c4"] if any(s["c"] == "c4" for s in steps) else []) + (["c5", "c5"] if twin else []))
             init = c in ("c1", "c3", "c4")
             pool = ["OnChannelOpened", "OnTransferInitiated", "OnRequestDisconnected", "OnSendDataError", "Pause", "Resume", "data", "data", "data", "OnChannelCompleted", "invalid"]
             if init:
                 pool += ["accept", "accept", "SendVoucher", "respComplete", "respVR", "respPause", "Close"]
             else:
-                pool += ["SendVoucherResult", "UpdateValidation", "reqVoucher", "reqPause", "CloseErr"]
+                pool += ["SendVoucherResult", "UpdateValidation", "reqVoucher", "reqPause", "CloseErr", "reqCancel"]
             k = rng.choice(pool)
             if k == "data":
                 idx[c] += 1
@@ -57,12 +62,14 @@ def gen(ctx, n):
             elif k == "respPause":
                 steps.append(stim("OnResponseReceived", c, msg=resp("Update", paused=rng.random() < 0.5)))
             elif k == "reqVoucher":
-                steps.append(stim("RecvRequest", c, msg={"isReq": True, "kind": "Voucher", "tid": 7, "v": "v4"}))
+                steps.append(stim("RecvRequest", c, tidOf="c1" if c == "c5" else "", msg={"isReq": True, "kind": "Voucher", "tid": 0 if c == "c5" else 7, "v": "v4"}))
             elif k == "reqPause":
-                steps.append(stim("RecvRequest", c, msg={"isReq": True, "kind": "Update", "tid": 7, "paused": rng.random() < 0.5}))
+                steps.append(stim("RecvRequest", c, tidOf="c1" if c == "c5" else "", msg={"isReq": True, "kind": "Update", "tid": 0 if c == "c5" else 7, "paused": rng.random() < 0.5}))
+            elif k == "reqCancel":
+                steps.append(stim("RecvRequest", c, tidOf="c1" if c == "c5" else "", msg={"isReq": True, "kind": "Cancel", "tid": 0 if c == "c5" else 7}))
             elif k == "invalid":   # an event that is invalid in most statuses: must not be announced
-                steps.append(stim("OnResponseReceived" if init else "RecvRequest", c,
-                                  msg=resp("Update", paused=True) if init else {"isReq": True, "kind": "Update", "tid": 7, "paused": True}))
+                steps.append(stim("OnResponseReceived" if init else "RecvRequest", c, tidOf="c1" if c == "c5" else "",
+                                  msg=resp("Update", paused=True) if init else {"isReq": True, "kind": "Update", "tid": 0 if c == "c5" else 7, "paused": True}))
             elif k in ("SendVoucher",):
                 steps.append(stim(k, c, msg={"v": "v4"}, sendFail=[True] if rng.random() < 0.2 else []))
             elif k in ("SendVoucherResult",):
